@@ -3,7 +3,8 @@
    contract, any triggers, all label sequences (see Props/C03.v for the transition system). *)
 From Coq Require Import ZArith List Bool String.
 Require Import QzSched.Gen.Params QzSched.SchedModel QzSched.ListQueue QzSched.Triggers QzSched.LtsDefs
-               QzSched.ApiProofs QzSched.FetchProofs QzSched.C03Proofs QzSched.C08Proofs QzSched.C04Proofs QzSched.RunOnceProofs QzSched.ExampleDefs QzSched.Examples.
+               QzSched.ApiProofs QzSched.FetchProofs QzSched.C03Proofs QzSched.C08Proofs QzSched.C04Proofs QzSched.RunOnceProofs QzSched.ExampleDefs QzSched.Examples
+               QzSched.Gen.TrigSrc QzSched.TrigTie.
 Import ListNotations.
 Open Scope list_scope.
 Open Scope Z_scope.
@@ -140,3 +141,26 @@ Theorem C04_example_no_drift_hypotheses : exists s, st_1 = Some s /\ q_wf list_q
     In (EvTrig ka 0%nat 181 (inl 191) CFetchValid) (s_log list_queue xstate s').
 Proof. exact ex_c04_chained. Qed.
 Print Assumptions C04_example_no_drift_hypotheses.
+
+(* the tie to the SOURCE of quartz/trigger.go: the executable instances TSimple / TOnce used by run_once_once and
+   the examples are what the Go methods SimpleTrigger.NextFireTime / RunOnceTrigger.NextFireTime compute
+   (Gen/TrigSrc.v is translated from the source on every run; decode maps the (value, error) pair) *)
+Theorem C04_simple_trigger_is_the_source : forall (t : tid) i prev,
+  nft_exec t (TSimple i) prev =
+  (TSimple i, let '(v, code) := g_SimpleTrigger_NextFireTime {| SimpleTrigger_Interval := i |} prev in decode v code).
+Proof. exact src_simple_trigger. Qed.
+Print Assumptions C04_simple_trigger_is_the_source.
+
+Theorem C04_run_once_trigger_is_the_source : forall (t : tid) d e prev,
+  nft_exec t (TOnce d e) prev =
+  (let '(ot', v, code) := g_RunOnceTrigger_NextFireTime {| RunOnceTrigger_Delay := d; RunOnceTrigger_Expired := e |} prev in
+   (TOnce (RunOnceTrigger_Delay ot') (RunOnceTrigger_Expired ot'), decode v code)).
+Proof. exact src_run_once_trigger. Qed.
+Print Assumptions C04_run_once_trigger_is_the_source.
+
+Theorem C04_run_once_latch_in_the_source : forall d e prev,
+  let '(ot', v, code) := g_RunOnceTrigger_NextFireTime {| RunOnceTrigger_Delay := d; RunOnceTrigger_Expired := e |} prev in
+  RunOnceTrigger_Expired ot' = true /\ RunOnceTrigger_Delay ot' = d /\
+  (e = true -> code = c_ErrTriggerExpired) /\ (e = false -> code = 0 /\ v = prev + d).
+Proof. exact src_run_once_latch. Qed.
+Print Assumptions C04_run_once_latch_in_the_source.
